@@ -529,6 +529,13 @@ func (c *compiler) evalLetStatement(node *ast.LetStatement) (interface{}, error)
 }
 
 func (c *compiler) evalIdentifier(node *ast.Identifier) (interface{}, error) {
+	return c.evalMember(node, true)
+}
+
+// evalMember is the value of node. A field that holds a pointer yields what it
+// points to when deref is set (the value to print, compare, pass on), the
+// pointer itself otherwise (the receiver of a method call).
+func (c *compiler) evalMember(node *ast.Identifier, deref bool) (interface{}, error) {
 	if node.Callee != nil {
 		c, err := c.evalExpression(node.Callee)
 		if err != nil {
@@ -558,7 +565,9 @@ func (c *compiler) evalIdentifier(node *ast.Identifier) (interface{}, error) {
 				return nil, nil
 			}
 
-			f = f.Elem()
+			if deref {
+				f = f.Elem()
+			}
 		}
 
 		if !f.IsValid() {
@@ -850,12 +859,21 @@ func (c *compiler) evalCallExpression(node *ast.CallExpression) (interface{}, er
 	var rv reflect.Value
 
 	if node.Callee != nil {
-		c, err := c.evalExpression(node.Callee)
+		var recv interface{}
+		var err error
+
+		if id, ok := node.Callee.(*ast.Identifier); ok {
+			// h.P.Inc(): the method runs on what the field P points to, not on a copy of it
+			recv, err = c.evalMember(id, false)
+		} else {
+			recv, err = c.evalExpression(node.Callee)
+		}
+
 		if err != nil {
 			return nil, err
 		}
 
-		rc := reflect.ValueOf(c)
+		rc := reflect.ValueOf(recv)
 		if !rc.IsValid() || (rc.Kind() == reflect.Ptr && rc.IsNil()) {
 			return nil, fmt.Errorf("'%s' is nil, cannot call '%s' on it", node.Callee.String(), node.Function.String())
 		}
@@ -867,7 +885,7 @@ func (c *compiler) evalCallExpression(node *ast.CallExpression) (interface{}, er
 
 		rv = rc.MethodByName(mname)
 		if !rv.IsValid() && rc.Type().Kind() != reflect.Ptr {
-			ptr := reflect.New(reflect.TypeOf(c))
+			ptr := reflect.New(reflect.TypeOf(recv))
 			ptr.Elem().Set(rc)
 			rv = ptr.MethodByName(mname)
 			if !rv.IsValid() {
